@@ -65,6 +65,7 @@ func init() {
 }
 
 func replay(in *core.Lines, args []string, seed int64, sum *core.Summary) error {
+	sum.Count("inexact_elements", 0) // elements within tolerance but not bit-equal to the exact value
 	full := false
 	nb, nx := 0, -1
 	for _, a := range args {
